@@ -96,6 +96,10 @@ pub(crate) enum Disp {
     Text(char, Look),
     WideRight(char, Look),
     Img(u64, usize, usize),
+    /// fragment of a placement above the text layer, and what the text layer holds under it
+    /// (it shows through transparent pixels: a from-scratch repaint erases the area with the
+    /// image cell's face before placing the image)
+    ImgOver(u64, usize, usize, Box<Disp>),
     Multi,
 }
 
@@ -245,9 +249,10 @@ impl Screen {
                     let (r, c) = (p.at.row + dy, p.at.col + dx);
                     if r < self.h && c < self.w {
                         let slot = &mut out[r * self.w + c];
-                        *slot = match slot {
-                            Disp::Img(..) | Disp::Multi => Disp::Multi,
-                            _ => Disp::Img(p.content, dy, dx),
+                        let under = std::mem::replace(slot, Disp::Multi);
+                        *slot = match under {
+                            Disp::Img(..) | Disp::ImgOver(..) | Disp::Multi => Disp::Multi,
+                            under => Disp::ImgOver(p.content, dy, dx, Box::new(under)),
                         };
                     }
                 }
